@@ -77,6 +77,12 @@ RAbs(x) == IF x[1] < 0 THEN RNeg(x) ELSE x
 
 \* floor of a finite rational (TLA+ \div rounds towards -infinity)
 RFloor(p) == p[1] \div p[2]
+\* rounding to the nearest integer, halves away from zero (lax.round / scipy.ndimage for integer-typed arrays)
+RRoundAway(p) ==
+  IF p[2] = 0 THEN p
+  ELSE LET a == IF p[1] < 0 THEN -p[1] ELSE p[1]
+           r == (2 * a + p[2]) \div (2 * p[2])
+       IN <<IF p[1] < 0 THEN -r ELSE r, 1>>
 
 \* sums / maxima over finite sets of indices
 RSum(S, f(_)) == FoldSet(LAMBDA i, acc : RAdd(acc, f(i)), R(0), S)
